@@ -144,6 +144,27 @@ static int sch_clb(sess_t *s) {
 				snprintf(name, sizeof(name), "z%zu", i);
 				ok &= xmit_g2(s, name, rx[2 + i], s->g2[2 + i], (int)s->opt[1]);
 			}
+			/* coordinated substitutions by a dishonest sender on two sibling components (only with >= 3 blocks):
+			 * swap A_0 / A_1 (or B_0 / B_1), or move a difference D from one to the other */
+			if (l >= 3) {
+				fault_t *fa = find_fault(s, "pairA"), *fb = find_fault(s, "pairB");
+				for (int w = 0; w < 2; w++) {
+					fault_t *ff = w ? fb : fa;
+					g1_t *X = s->g1 + (w ? 5 : 1);
+					if (!ff) continue;
+					g1_t d;
+					g1_null(d); g1_new(d);
+					if (!strcmp(ff->kind, "v_swap")) {
+						g1_copy(d, X[0]); g1_copy(X[0], X[1]); g1_copy(X[1], d);
+					} else {
+						g1_rand(d);
+						g1_add(X[0], X[0], d); g1_norm(X[0], X[0]);
+						g1_sub(X[1], X[1], d); g1_norm(X[1], X[1]);
+					}
+					tr_printf("NOTE %d coordinated-%s-%s\n", s->sid, w ? "B" : "A", ff->kind);
+					g1_free(d);
+				}
+			}
 			/* signature components are delivered in place (sender objects are not needed any more) */
 			const char *nm[9] = { "a", "A0", "A1", "A2", "b", "B0", "B1", "B2", "c" };
 			for (int i = 0; i < 9; i++) {
@@ -528,7 +549,9 @@ static int sch_ghpe(sess_t *s) {
 	}
 	if (s->phase == k + 2) {
 		if (s->flag[0] > 0) {
-			int rc = cp_ghpe_dec(s->b[19], s->b[20], s->b[22], s->b[23], sp);
+			int rc;
+			if (s->opt[2]) { bn_copy(s->b[19], s->b[20]); rc = cp_ghpe_dec(s->b[19], s->b[19], s->b[22], s->b[23], sp); }
+			else rc = cp_ghpe_dec(s->b[19], s->b[20], s->b[22], s->b[23], sp);
 			log_rc(s, "dec", rc);
 			if (rc == RLC_OK) log_out_bn(s, "sum", s->b[19]);
 		}
@@ -1198,6 +1221,36 @@ static int sch_cmlhs(sess_t *s) {
 			int ok = 1;
 			ok &= xmit_g1(s, "r", G[20], G[19], (int)s->opt[1]);
 			ok &= xmit_g2(s, "s", H[11], H[10], (int)s->opt[1]);
+			/* per-signer tag signatures sig[j] (in place; in the ECDSA variant they carry (r, s) in their
+			 * coordinates, so they travel as raw coordinate pairs) and the signers' z[j] */
+			for (int j = 0; j < 2; j++) {
+				g2_t tz;
+				g2_null(tz); g2_new(tz);
+				g2_copy(tz, H[j]);
+				ok &= xmit_g2(s, j ? "z1" : "z0", H[j], tz, (int)s->opt[1]);
+				g2_free(tz);
+				if (bls) {
+					g1_t ts;
+					g1_null(ts); g1_new(ts);
+					g1_copy(ts, G[1 + j]);
+					ok &= xmit_g1(s, j ? "sig1" : "sig0", G[1 + j], ts, (int)s->opt[1]);
+					g1_free(ts);
+				} else {
+					fp_prime_back(s->b[16], G[1 + j]->x);
+					fp_prime_back(s->b[17], G[1 + j]->y);
+					ok &= xmit_bn(s, j ? "sr1" : "sr0", s->b[18], s->b[16], 0);
+					ok &= xmit_bn(s, j ? "ss1" : "ss0", s->b[19], s->b[17], 0);
+					if (bn_bits(s->b[18]) <= RLC_FP_BITS && bn_bits(s->b[19]) <= RLC_FP_BITS && bn_sign(s->b[18]) == RLC_POS && bn_sign(s->b[19]) == RLC_POS) {
+						bn_t pp;
+						bn_null(pp); bn_new(pp);
+						pp->used = RLC_FP_DIGS; dv_copy(pp->dp, fp_prime_get(), RLC_FP_DIGS); bn_trim(pp);
+						bn_mod(s->b[18], s->b[18], pp); bn_mod(s->b[19], s->b[19], pp);
+						fp_prime_conv(G[1 + j]->x, s->b[18]);
+						fp_prime_conv(G[1 + j]->y, s->b[19]);
+						bn_free(pp);
+					} else ok = 0;
+				}
+			}
 			ok &= xmit_g1(s, "as0", G[21], G[15], (int)s->opt[1]);
 			ok &= xmit_g1(s, "as1", G[22], G[16], (int)s->opt[1]);
 			if (bls) {
@@ -1305,7 +1358,9 @@ static int sch_shpe(sess_t *s) {
 		case 2: s->flag[0] = xmit_bn(s, "ct", s->b[12], s->b[1], 0); return 1;
 		case 3:
 			if (s->flag[0]) {
-				int rc = cp_shpe_dec(s->b[2], s->b[12], sh_prv[s->sid]);
+				int rc;
+				if (s->opt[2]) { bn_copy(s->b[2], s->b[12]); rc = cp_shpe_dec(s->b[2], s->b[2], sh_prv[s->sid]); }
+				else rc = cp_shpe_dec(s->b[2], s->b[12], sh_prv[s->sid]);
 				log_rc(s, "dec", rc);
 				if (rc == RLC_OK && err_get_code() == RLC_OK) log_out_bn(s, "dec", s->b[2]);
 			}
